@@ -298,7 +298,7 @@ PtrNext ==
     \/ /\ c.stage = 1
        /\ \E ctx \in PtrCtx :
             IF IsValidEncoding(c.e) /\ c.e # PeOmit /\ PeApp(c.e) # PeAligned
-            THEN \E asz \in (IF Slim THEN {4, 8} ELSE {2, 4, 8}) : \E bi \in 1..4 :
+            THEN \E asz \in (IF Slim THEN {4, 8} ELSE {2, 4, 8}) : \E bi \in (IF Slim THEN {1, 3, 4} ELSE 1..4) :
                  \E raw \in (IF Slim THEN RawValsSlim(PeFormat(c.e)) ELSE RawVals(PeFormat(c.e))) : \E le \in BOOLEAN :
                    /\ (~le => bi = 3 /\ asz = 4 /\ ~Slim)
                    /\ (asz = 2 => bi \in {3, 4})
